@@ -1,3 +1,180 @@
-//! C06 (stub: no cases yet)
+//! C06 — string split iterators vs std's split family.
 use crate::common::*;
-pub fn run(_cfg: &Cfg, _out: &mut Out) {}
+use konst::string as kstr;
+
+const KINDS: [&str; 6] = ["split", "rsplit", "split_rev", "rsplit_rev", "term", "rterm"];
+
+macro_rules! drain {
+    ($h:expr, $it:expr) => {{
+        let h: &str = $h;
+        let mut it = $it;
+        let mut v: Vec<(String, String)> = Vec::new();
+        let mut guard = 0usize;
+        loop {
+            // a copy must have the same future: step the copy, keep the original for the next round
+            let c = it.copy();
+            match c.next() {
+                Some((p, nit)) => {
+                    v.push((view_str(h, p), view_str(h, nit.remainder())));
+                    it = nit;
+                }
+                None => break,
+            }
+            guard += 1;
+            if guard > h.len() + 8 {
+                v.push(("RUNAWAY".into(), "RUNAWAY".into()));
+                break;
+            }
+        }
+        v
+    }};
+}
+
+fn impl_steps<'a, P: kstr::Pattern<'a>>(kind: &str, h: &str, d: P) -> Vec<(String, String)> {
+    match kind {
+        "split" => drain!(h, kstr::split(h, d)),
+        "rsplit" => drain!(h, kstr::rsplit(h, d)),
+        "split_rev" => drain!(h, kstr::split(h, d).rev()),
+        "rsplit_rev" => drain!(h, kstr::rsplit(h, d).rev()),
+        "term" => drain!(h, kstr::split_terminator(h, d)),
+        "rterm" => drain!(h, kstr::rsplit_terminator(h, d)),
+        _ => unreachable!(),
+    }
+}
+
+fn std_pieces(kind: &str, h: &str, d: &str) -> Vec<String> {
+    let v: Vec<&str> = match kind {
+        "split" | "rsplit_rev" => h.split(d).collect(),
+        "rsplit" | "split_rev" => h.rsplit(d).collect(),
+        "term" => h.split_terminator(d).collect(),
+        "rterm" => {
+            // documented mirrored rule: rsplit without the empty piece before a leading delimiter
+            let mut v: Vec<&str> = h.rsplit(d).collect();
+            if v.last().map_or(false, |p| p.is_empty()) {
+                v.pop();
+            }
+            v
+        }
+        _ => unreachable!(),
+    };
+    v.into_iter().map(|p| view_str(h, p)).collect()
+}
+
+fn tag(h: &str, d: &str) -> String {
+    if d.is_empty() {
+        return if h.is_empty() { "emptyd+emptyh".into() } else { "emptyd".into() };
+    }
+    let n = h.matches(d).count();
+    if n == 0 {
+        return "-".into();
+    }
+    let mut t = vec![if n == 1 { "one" } else { "multi" }];
+    if h.starts_with(d) {
+        t.push("lead");
+    }
+    if h.ends_with(d) {
+        t.push("trail");
+    }
+    if h.contains(&format!("{}{}", d, d)) {
+        t.push("adj");
+    }
+    // overlapping occurrences (d has a border and two occurrences overlap)
+    let hb = h.as_bytes();
+    let db = d.as_bytes();
+    let occ: Vec<usize> = (0..=hb.len().saturating_sub(db.len())).filter(|&i| hb.len() >= db.len() && &hb[i..i + db.len()] == db).collect();
+    if occ.windows(2).any(|w| w[1] - w[0] < db.len()) {
+        t.push("overlap");
+    }
+    t.join("+")
+}
+
+fn emit<'a, P: kstr::Pattern<'a> + Copy + std::panic::RefUnwindSafe>(out: &mut Out, suffix: &str, args: &str, h: &str, d: P, dstr: &str) {
+    let mut pieces_impl = Vec::new();
+    let mut steps_impl = Vec::new();
+    let mut pieces_std = Vec::new();
+    for k in KINDS {
+        let r = std::panic::catch_unwind(|| impl_steps(k, h, d));
+        match r {
+            Ok(st) => {
+                pieces_impl.push((k, show_list(st.iter(), |p| p.0.clone())));
+                steps_impl.push((k, show_list(st.iter(), |p| format!("({},{})", p.0, p.1))));
+            }
+            Err(_) => {
+                pieces_impl.push((k, "PANIC".to_string()));
+                steps_impl.push((k, "PANIC".to_string()));
+            }
+        }
+        pieces_std.push((k, show_list(std_pieces(k, h, dstr), |p| p)));
+    }
+    let tg = tag(h, dstr);
+    out.line(&format!("c06.pieces{}", suffix), args, &fields(&pieces_impl), &fields(&pieces_std), &tg);
+    out.line(&format!("c06.steps{}", suffix), args, &fields(&steps_impl), "-", &tg);
+}
+
+fn one_str(out: &mut Out, h: &str, d: &str) {
+    let args = format!("{} {}", hex(h.as_bytes()), hex(d.as_bytes()));
+    emit(out, "", &args, h, d, d);
+}
+fn one_char(out: &mut Out, h: &str, c: char) {
+    let args = format!("{} {}", hex(h.as_bytes()), c as u32);
+    let mut buf = [0u8; 4];
+    let d: &str = c.encode_utf8(&mut buf);
+    emit(out, "char", &args, h, c, d);
+}
+
+pub fn run(cfg: &Cfg, out: &mut Out) {
+    // regression corpus: F1 shapes (overlap inside a failed partial match), leading/trailing/adjacent delimiters
+    for (h, d) in [("aaab", "aab"), ("abbb", "abb"), (",a,,b,", ","), ("", "a"), ("", ""), ("ab", ""), ("éa锈", ""), ("aaa", "aa"), ("ababa", "aba")] {
+        one_str(out, h, d);
+    }
+    let alpha = ['a', 'b', 'é', '-'];
+    let hays = all_strings(&alpha, if cfg.thorough { 5 } else { 4 });
+    let delims = all_strings(&alpha, if cfg.thorough { 3 } else { 2 });
+    for h in &hays {
+        for d in &delims {
+            one_str(out, h, d);
+        }
+    }
+    // longer delimiters on a binary alphabet (self-overlapping delimiters)
+    let h2 = all_strings(&['a', 'b'], if cfg.thorough { 8 } else { 6 });
+    let d2 = all_strings(&['a', 'b'], 3);
+    for h in &h2 {
+        for d in &d2 {
+            if d.len() >= 2 {
+                one_str(out, h, d);
+            }
+        }
+    }
+    // char delimiters and multi-byte text (empty-delimiter char stepping)
+    let mb = ['a', 'é', '锈', '🧠'];
+    let hays_mb = all_strings(&mb, if cfg.thorough { 4 } else { 3 });
+    for h in &hays_mb {
+        for c in mb {
+            one_char(out, h, c);
+        }
+        one_str(out, h, "");
+        one_str(out, h, "é锈");
+        one_str(out, h, "🧠");
+    }
+    // seeded random
+    let mut rng = Rng::new(cfg.seed ^ 0x06);
+    let count = if cfg.thorough { 6000 } else { 1000 };
+    for _ in 0..count {
+        let dl = rng.below(4) as usize;
+        let d: String = (0..dl).map(|_| *rng.pick(&alpha)).collect();
+        let target = rng.below(24) as usize;
+        let mut h = String::new();
+        while h.chars().count() < target {
+            match rng.below(3) {
+                0 => h.push(*rng.pick(&alpha)),
+                1 => h.push_str(&d),
+                _ => {
+                    let dc: Vec<char> = d.chars().collect();
+                    let k = rng.below(dc.len() as u64 + 1) as usize;
+                    h.extend(dc[..k].iter());
+                }
+            }
+        }
+        one_str(out, &h, &d);
+    }
+}
